@@ -120,7 +120,7 @@ var rawFloatsReviewed = map[string]string{
 func init() {
 	register(&Rule{
 		ID:    "C16.rawfloats",
-		Props: []string{"C16", "C13", "C03", "C06", "C14", "C10"},
+		Props: []string{"C16", "C13", "C03", "C06", "C14", "C10", "C17"},
 		Doc:   "the flat float slice of a Sequence is interpreted only by Sequence itself: the field Sequence.floats is read only in the methods of Sequence and its constructor (which apply the stride of the sequence's own coordinates type), plus the reviewed writers that copy the whole slice — any other function that walks the floats itself (with a stride of 2, say) mistakes Z and M ordinates for X and Y on XYZ/XYM/XYZM input",
 		Floor: 10,
 		Run:   runC16RawFloats,
@@ -178,6 +178,8 @@ func runC16RawFloats(c *Ctx) {
 				c.Except(in.Pos(), fn, construct, rawFloatsReviewed[FuncName(root)])
 			case isNewHelper(root) && calledOnlyFromSequence(c, root, 0):
 				c.OK(in.Pos(), fn, construct, "helper split off Sequence's own code")
+			case isNewHelper(root) && calledOnlyFromReviewed(c, root, 0) != "":
+				c.Except(in.Pos(), fn, construct, "helper split off reviewed code: "+calledOnlyFromReviewed(c, root, 0))
 			default:
 				c.Bad(in.Pos(), fn, construct, "the raw float slice of a Sequence is read outside Sequence's own methods: code that walks it must apply the stride of the sequence's coordinates type (2, 3 or 4 floats per point); going through Get/GetXY/Length is what guarantees that")
 			}
@@ -210,6 +212,35 @@ func calledOnlyFromSequence(c *Ctx, f *ssa.Function, d int) bool {
 		return false
 	}
 	return true
+}
+
+// calledOnlyFromReviewed: every call site of the helper (introduced since the
+// baseline) lies in a reviewed reader of Sequence.floats, or in another such
+// helper; returns the reason of (one of) the reviewed owners.
+func calledOnlyFromReviewed(c *Ctx, f *ssa.Function, d int) string {
+	if d > 3 {
+		return ""
+	}
+	sites := c.P.callSitesOf(f)
+	if len(sites) == 0 {
+		return ""
+	}
+	reason := ""
+	for _, s := range sites {
+		r := rootFunc(s.Parent())
+		if why := rawFloatsReviewed[FuncName(r)]; why != "" {
+			reason = why
+			continue
+		}
+		if isNewHelper(r) && r != f {
+			if why := calledOnlyFromReviewed(c, r, d+1); why != "" {
+				reason = why
+				continue
+			}
+		}
+		return ""
+	}
+	return reason
 }
 
 // ---------------------------------------------------------------------------
@@ -1578,7 +1609,7 @@ func init() {
 	})
 	register(&Rule{
 		ID:    "C01.renoded",
-		Props: []string{"C01", "C02"},
+		Props: []string{"C01", "C02", "C16"},
 		Doc:   "a geometry that goes into the overlay has been re-noded: the re-noding routines for lineal and areal geometries (reNodeLineString, reNodeMultiLineString, reNodePolygon, reNodeMultiPolygon, reNodeGeometryCollection) never return the geometry they were given — each result is rebuilt from re-noded parts — except under a test that it is empty; a 'nothing changed' shortcut keyed on a count lets repeated vertices (zero-length segments) and uncut crossings through",
 		Floor: 4,
 		Run:   runC01Renoded,
